@@ -30,6 +30,8 @@
      FAD maxiter N D d P              fa_embed_des, fa_epsilon = 0: D lines A, R line, P lines X -> ROW lines + ORACLE line
      FAT rounds N D d P eps           never-stopping trajectory (fa_observe) with fa_epsilon = eps (n/d):
                                       per round "T t", N "ROW" lines (X^T A_t), D "IC" lines (invC_t), "Q n/d"; ORACLE line
+     MAXL                             the arguments of the max-distance double loop of spe_embedding on a range
+       R id id id          -> "PAIRS a:b a:b ..."
      POLAR M count                    shipped polar method on logged std::rand answers (M = RAND_MAX + 1)
        RS r r r ...        -> count lines "XS x s" (accepted x and radius), "USED m" | "ERR ..."
    every block's answer ends with "END" *)
@@ -235,6 +237,10 @@ let () =
             List.iter (fun r -> print_string ("IC " ^ String.concat " " (List.map string_of_qc r) ^ "\n")) ic;
             print_string ("Q " ^ string_of_qc q ^ "\n")) obs;
         Printf.printf "ORACLE calls %d bad %d singular %d\n" !calls !bad !singular;
+        print_string "END\n"
+      | ["MAXL"] ->
+        let range = nats (expect "R") in
+        print_string ("PAIRS " ^ show_pairs (max_loop_calls range) ^ "\n");
         print_string "END\n"
       | "POLAR" :: [m; count] ->
         let rs = List.map z_of_string (expect "RS") in
